@@ -31,6 +31,13 @@ CLAIMED = {
         'of every corpus document; everything outside the parent, every sibling and every gap is compared token by token.',
         'Default-parsed documents; donors from a fixed table; gap clause = old gap or declared separators.',
         '§4 C03'),
+    'C04': (
+        'exhaustive read sweep over every reachable model/view of every corpus document + per-document fixpoint BFS over all '
+        'claim/unclaim/auto-claim calls, text and visible-token identity compared in every state',
+        'Every non-editing call the API offers is made on every model of every small document, and every sequence of attribution '
+        'calls is explored to a fixpoint; after each the document must print identically with the same visible tokens.',
+        'Mutating/ownership-transferring helpers (detach, reattach, clone, wrap_with_parenthesis, into_*_cost) are not reads.',
+        '§4 C04'),
     'C05': (
         'breadth-first exploration of edit histories over the whole edit alphabet, structural invariant check_tree in every state',
         'All histories up to depth 1 (whole corpus) / 2 (small corpus), deduplicated by canonical state, with the tree invariant '
@@ -58,6 +65,46 @@ CLAIMED = {
         'edit on every corpus document, with every token\'s (line, column, ordinal) compared against the printed text.',
         'Token texts abstracted to 4 classes; <= 2 newline-bearing tokens per store in the store-level space.',
         '§4 C08'),
+    'C09': (
+        'exhaustive enumeration of (model, value property, value) with get-after-set / sibling-frame / re-parse oracles; explicit-state '
+        'fixpoint BFS of the cost group and of payee/narration against a record-of-optionals reference model',
+        'The two dependent groups are finite state machines once values are drawn from 3-element domains: every transition from '
+        'every reachable state (from every initial concrete form) is executed against the record model.',
+        'Documented dependencies exempt from the sibling clause; comment properties re-read attribution aside.',
+        '§4 C09'),
+    'C10': (
+        'explicit-state BFS per repeated field over (element kinds, views read, index tables); every mutating call through every '
+        'view with every index/slice/step/key argument; lock-step Python list / first-match association list reference',
+        'All interleavings of mutations through aliasing views are reachable as paths of the state graph; each transition is '
+        'compared with list semantics on the projection, the complement order, and every view re-derived from the raw list.',
+        'List length capped at 2 (quick) / 3 (thorough); reverse() on node views is refused by design (a node cannot be in two places).',
+        '§4 C10'),
+    'C12': (
+        'exhaustive enumeration of values/lexemes up to a length bound over adversarial alphabets (all calendar dates in thorough), '
+        'terminal regexps taken from the live grammar; BFS over value/raw_text/indent assignment sequences',
+        'Every in-domain value and every lexeme of every terminal within the bound is pushed through from_value / from_raw_text / the '
+        'real lexer / a one-directive file parse.',
+        'Value domain = image of the parse function (DESIGN §4 C12); alphabets are representatives of lexer character classes.',
+        '§4 C12'),
+    'C14': (
+        'exhaustive enumeration of comment layouts <= n lines with an independent token-level attribution reference; per-document '
+        'fixpoint BFS over all claim/unclaim/auto-claim calls with the ownership invariant in every state',
+        'Every layout of comments relative to directives/postings/meta within the bound is attributed by the implementation and by '
+        'the reference rules R1-R3; every reachable attribution state keeps "at most one owner, flag agrees".',
+        'Same indentation is read as same indentation class; the hosting field of a standalone comment is not compared.',
+        '§4 C14'),
+    'C17': (
+        'exhaustive enumeration of (document, model/token, side, spacing string) with an independent token-level reference for the run',
+        'Every spacing getter and every setter with all 21 strings of <= 2 atoms is executed on every model and token of every '
+        'layout-corpus document.',
+        'Runs are delimited by zero-width end-of-line marks (documented, counted in the evidence).',
+        '§4 C17'),
+    'C18': (
+        'full product enumeration parent kind x existing meta layout x indent_by x insertion route (x second insertion), '
+        'documented indent rule as reference',
+        'The space is finite and small; it is enumerated completely.',
+        'Siblings with different indents and comment-only lists are counted, not judged.',
+        '§4 C18'),
 }
 
 PENDING_REASON = 'check not implemented yet in this commit (planned: see DESIGN.md §4); not claimed until it runs'
